@@ -421,12 +421,12 @@ class DataFrameModel(Generic[TDataFrame, TSchema], BaseModel):
         check_infos = []
         for base in bases:
             for attr_name, attr_value in vars(base).items():
+                if attr_name in method_names:  # overridden by subclass
+                    continue
+                method_names.add(attr_name)
                 check_info = getattr(attr_value, key, None)
                 if not isinstance(check_info, CheckInfo):
                     continue
-                if attr_name in method_names:  # check overridden by subclass
-                    continue
-                method_names.add(attr_name)
                 check_infos.append(check_info)
         return check_infos
 
@@ -445,10 +445,12 @@ class DataFrameModel(Generic[TDataFrame, TSchema], BaseModel):
         parser_infos = []
         for base in bases:
             for attr_name, attr_value in vars(base).items():
+                if attr_name in method_names:  # overridden by subclass
+                    continue
+                method_names.add(attr_name)
                 parser_info = getattr(attr_value, key, None)
                 if not isinstance(parser_info, ParserInfo):
                     continue
-                method_names.add(attr_name)
                 parser_infos.append(parser_info)
         return parser_infos
 
